@@ -72,7 +72,7 @@ const (
 
 var dataIDs = []uint64{0, 1, 2, 6, 7, 11, 12, 13, 14}
 var attIDs = []uint64{3, 4, 9}
-var wrapIDs = []uint64{5, 10}
+var wrapIDs = []uint64{5, 10, 16, 17}
 var ticketCavIDs = []uint64{8, 15}
 
 func (b *builder) randData(n int) []sym.ACav {
